@@ -70,7 +70,7 @@ fn dce_block_with_live(
                                 live.insert(u.clone());
                             }
                             // Keep side effects before the declaration in final order
-                            out.push(ast::Stmt::Expr(v));
+                            out.push(effect_only_stmt(v));
                         }
                         // Keep declaration without initializer
                         out.push(ast::Stmt::VarDecl {
@@ -95,7 +95,7 @@ fn dce_block_with_live(
                         for u in &used_rhs {
                             live.insert(u.clone());
                         }
-                        out.push(ast::Stmt::Expr(v));
+                        out.push(effect_only_stmt(v));
                     }
                 }
             }
@@ -116,7 +116,7 @@ fn dce_block_with_live(
                         for u in &used_rhs {
                             live.insert(u.clone());
                         }
-                        out.push(ast::Stmt::Expr(value));
+                        out.push(effect_only_stmt(value));
                     }
                 }
             }
@@ -610,6 +610,18 @@ fn is_value_only_go_builtin(name: &str) -> bool {
             | "float32"
             | "float64"
     )
+}
+
+/// The statement that evaluates `value` for its effects only.  Go accepts a call as an expression statement; any other
+/// expression that still has to be evaluated (a composite literal with a call inside) is assigned to the blank identifier.
+fn effect_only_stmt(value: ast::Expr) -> ast::Stmt {
+    match value {
+        ast::Expr::Call { .. } => ast::Stmt::Expr(value),
+        other => ast::Stmt::Assignment {
+            name: "_".to_string(),
+            value: other,
+        },
+    }
 }
 
 fn expr_has_side_effects(e: &ast::Expr) -> bool {
